@@ -286,7 +286,13 @@ func genSteps(r *rand.Rand, n int) []gstep {
 		default:
 			sp := mkCall("StartPath", -8, -8)
 			st = append(st, gstep{kind: "call", call: sp}, gstep{kind: "call", call: mkCall("AbsLineTo", 8, -8)},
-				gstep{kind: "call", call: mkCall("RelLineTo", -8, 16)}, gstep{kind: "call", call: mkCall("ClosePathEndPath")})
+				gstep{kind: "call", call: mkCall("RelLineTo", -8, 16)})
+			// ... followed by a few operations drawn from all verbs (curves, smooth curves, H/V, close-and-move, arcs with
+			// every flag combination), on the 1/64 lattice so that both pipelines see the same numbers
+			for k := r.Intn(4); k > 0; k-- {
+				st = append(st, gstep{kind: "call", call: randDraw(r, &progOpts{lattice: true, arcs: true}, r.Intn(len(drawVerbs)))})
+			}
+			st = append(st, gstep{kind: "call", call: mkCall("ClosePathEndPath")})
 		}
 	}
 	sp := mkCall("StartPath", -16, -16)
@@ -365,7 +371,8 @@ func driveGen(args []string) error {
 	stats := map[string]int{}
 	for i := 0; i < *n; i++ {
 		// the target rectangle sits at the image origin or away from it (same size: the same map apart from the origin)
-		rect := []image.Rectangle{image.Rect(0, 0, 64, 64), image.Rect(5, 9, 69, 73), image.Rect(24, 40, 88, 104)}[i%3]
+		rect := []image.Rectangle{image.Rect(0, 0, 64, 64), image.Rect(5, 9, 69, 73), image.Rect(24, 40, 88, 104),
+			image.Rect(0, 0, 128, 64), image.Rect(3, 1, 3+32, 1+128)}[i%5] // the last two: x and y scales differ (2 and 1, 1/2 and 2)
 		dyadicOnly = i%2 == 0
 		st := genSteps(rng, *steps)
 		if i%3 == 0 {
@@ -394,6 +401,7 @@ func driveGen(args []string) error {
 			pre = append(pre, gstep{kind: "readC"}, gstep{kind: "helper", h: h})
 			st = append(pre, st[1:]...)
 		}
+		plainLog := "" // the rasteriser log of the pipeline without a logger: a DestinationLogger in the way changes nothing
 		for _, logger := range []int{0, 1, 2} {
 			if logger != 0 && i%3 != logger%3 {
 				continue
@@ -431,6 +439,13 @@ func driveGen(args []string) error {
 				stats["P1"]++
 				stats["calls"] += nc
 				p1log = rasterDigest(t.z.Calls)
+				if logger == 0 {
+					plainLog = p1log
+				} else {
+					w.Emit(map[string]interface{}{"ev": "same", "what": "rasteriser log of Generator->Renderer with and without a DestinationLogger in between",
+						"a": plainLog, "b": p1log})
+					stats["logger compared"]++
+				}
 			}
 			// P2: Generator -> [logger ->] Encoder -> bytes -> Decoder -> Renderer
 			{
